@@ -5,8 +5,10 @@
    making a critical element out of order) at every position of every nesting level.
    No variables: used by TlvModelC08 (laws on the machine) and TlvModelVec (vectors for the
    implementation). K = how many fields may leave their default value at once when the full
-   product of the boundary sets is larger than Cap.                                          *)
-EXTENDS TlvModel
+   product of the boundary sets is larger than Cap.
+   Chain(s, v, 1) = the life of an instance holding v (TlvModelLife): one change per field, in
+   place where the field kind has an in-place operation.                                      *)
+EXTENDS TlvModelLife
 CONSTANTS K, Cap, EditK
 
 N(i)  == NumOfInt(i)
@@ -119,6 +121,30 @@ AtMost(s, k) ==
 EditAssign(s) == AtMost(s, EditK)
 Assign(s) == LET doms == [i \in 1 .. Len(s) |-> Dom(s[i], 0)]
              IN (IF CardProd(doms) <= Cap THEN Prod(doms) ELSE AtMost(s, K)) \cup EditAssign(s)
+
+\* ------------------------------------------------------------------ lives (TlvModelLife)
+\* another value of the same field: the first of its nested domain that differs from the current one
+Other(d, cur) == CHOOSE x \in Dom(d, 1) \ {cur} : TRUE
+(* the change made to field i of an instance currently holding v:
+     repeated field          the list grows in place (append)
+     map field               empty: an entry is put in place; otherwise its first entry is deleted in place
+     sub-model (present)     the first field of the SUB-model is assigned (the top-level instance sees no assignment)
+     anything else           the field of the instance itself is assigned another value               *)
+ChainStep(s, v, i) ==
+  LET d == s[i] IN
+  CASE d.kind = "repeated" -> Mut(<<>>, i, "append", 0, None, DefaultOf(d.elem[1]))
+    [] d.kind = "map" -> (IF v[i].items = <<>> THEN Mut(<<>>, i, "put", 0, DefaultOf(d.elem[1]), DefaultOf(d.elem[2]))
+                          ELSE Mut(<<>>, i, "del", 1, None, None))
+    [] d.kind = "model" /\ v[i].k = "model" -> Mut(<<<<i, 0>>>>, 1, "set", 0, None, Other(d.sub[1], v[i].v[1]))
+    [] OTHER -> Mut(<<>>, i, "set", 0, None, Other(d, v[i]))
+RECURSIVE Chain(_, _, _)
+Chain(s, v, i) == IF i > Len(s) THEN <<>>
+                  ELSE LET m == ChainStep(s, v, i) IN <<m>> \o Chain(s, Mutate(s, v, m), i + 1)
+\* second round: what the first round put in place is changed again (a list element replaced by a boundary value,
+\* the sub-model field assigned once more, ...), so that every kind of change also FOLLOWS an in-place change
+LifeOf(s, v) == LET c1 == Chain(s, v, 1)
+                    v1 == IF c1 = <<>> THEN v ELSE Lives(s, v, c1)[Len(c1)]
+                IN c1 \o Chain(s, v1, 1)
 
 \* ------------------------------------------------------------------ edits
 PickFrom(cands, S, p) == LET ok == SelectSeq(cands, LAMBDA x : x \notin S)
